@@ -288,6 +288,31 @@ def massParams (c : Coord) (G m0 pj0m : K) (nact : Nat) (ms : List K) : List K :
     for every particle 1 … N-1 (democratic heliocentric, in place on `r->particles`) -/
 def hybridMassParams (G m0 : K) (ms : List K) : List K := ms.map (fun _ => G * m0)
 
+/-! democratic-heliocentric jump step of the hybrid integrators, one Cartesian component
+    (integrator_mercurius.c:265-284, integrator_trace.c:260-288).  Which particles enter the momentum
+    sum is what keeps a lone type-0 test particle - massive or not - on its Kepler orbit with
+    `M = G m0`: `N' = testparticle_type==0 ? N_active : N`. -/
+
+/-- `px += v*m` over the given (m, v) pairs -/
+def jumpSum : K → List (K × K) → K
+  | px, [] => px
+  | px, (m, v) :: r => jumpSum (px + v * m) r
+
+/-- the particles 1 … N'-1 of the sum: `mv` = (m, v) of particles 1 … N-1, `nact = N_active-1`
+    (`= N-1` when `N_active == -1`) -/
+def jumpSources (tpType1 : Bool) (nact : Nat) (mv : List (K × K)) : List (K × K) :=
+  if tpType1 then mv else mv.take nact
+
+/-- MERCURIUS: `px /= m0; x_i += dt*px` for all i ≥ 1 -/
+def mercuriusJump (tpType1 : Bool) (nact : Nat) (dt m0 : K) (mv : List (K × K)) (xs : List K) : List K :=
+  let px := jumpSum Scalar.zero (jumpSources tpType1 nact mv) / m0
+  xs.map (fun x => x + dt * px)
+
+/-- TRACE (away from pericentre approaches): `px *= dt/m0; x_i += px` -/
+def traceJump (tpType1 : Bool) (nact : Nat) (dt m0 : K) (mv : List (K × K)) (xs : List K) : List K :=
+  let px := jumpSum Scalar.zero (jumpSources tpType1 nact mv) * (dt / m0)
+  xs.map (fun x => x + px)
+
 end mass
 
 /-! ## comparisons and the two unbounded loops (`[ScalarO K]`) -/
